@@ -140,3 +140,30 @@ Definition libm_id (f : libm_fn) : Z :=
 Definition oracle := Z -> Z -> Z -> Z.   (* fn id, arg0 bits, arg1 bits (0 if unary) *)
 Definition libm1 (o : oracle) (f : libm_fn) (a : f32) : f32 := of_bits (o (libm_id f) (to_bits a) 0).
 Definition libm2 (o : oracle) (f : libm_fn) (a b : f32) : f32 := of_bits (o (libm_id f) (to_bits a) (to_bits b)).
+
+(* ---- binary64, as far as Interval::quadrant needs it ---------------------------------- *)
+Definition f64 : Type := binary_float 53 1024.
+Lemma Hprec64 : FLX.Prec_gt_0 53. Proof. unfold FLX.Prec_gt_0; lia. Qed.
+Lemma Hmax64 : Prec_lt_emax 53 1024. Proof. unfold Prec_lt_emax; lia. Qed.
+(* f64::from(f32): exact *)
+Definition to64 (x : f32) : f64 :=
+  match x with
+  | B754_zero s => B754_zero s
+  | B754_infinity s => B754_infinity s
+  | B754_nan => B754_nan
+  | B754_finite s m e _ => binary_normalize 53 1024 Hprec64 Hmax64 mode_NE (if s then Zneg m else Zpos m) e false
+  end.
+Definition d64_of_bits (z : Z) : f64 := Binary.B2BSN 53 1024 (Bits.b64_of_bits (z mod 18446744073709551616)).
+Definition pi64 : f64 := d64_of_bits 4614256656552045848.     (* 0x400921FB54442D18 *)
+Definition two64 : f64 := d64_of_bits 4611686018427387904.    (* 2.0 *)
+(* (f64::from(angle) * 2.0 / PI).floor().rem_euclid(4.0) as u8 *)
+Definition quad64 (x : f32) : Z :=
+  let q := Bnearbyint (prec_lt_emax_:=Hmax64) mode_DN
+             (Bdiv (prec_gt_0_:=Hprec64) (prec_lt_emax_:=Hmax64) mode_NE
+                (Bmult (prec_gt_0_:=Hprec64) (prec_lt_emax_:=Hmax64) mode_NE (to64 x) two64) pi64) in
+  match q with
+  | B754_finite s m e _ =>
+      let v := if (0 <=? e)%Z then (Zpos m * 2 ^ e)%Z else (Zpos m / 2 ^ (- e))%Z in
+      ((if s then - v else v) mod 4)%Z
+  | _ => 0%Z
+  end.
